@@ -2,6 +2,7 @@ package worldp
 
 import (
 	"bytes"
+	"context"
 	"fmt"
 	"os"
 	"path"
@@ -27,10 +28,10 @@ import (
 func init() {
 	core.Register(&core.Check{
 		ID: "C13", World: "P (publication)", Level: "exploration",
-		Rule: "one evaluation = one seeded history of up to 15 endorse runs over a pool of 2-4 images x 2-3 candidate names (incl. the default) x overwrite on/off x snapshot directory none/set, through SimVCS (library and cobra command) and through localnonvcs on a scratch directory; the manifest predicates are evaluated after EVERY run on the files visible through the back end; " +
+		Rule: "one evaluation = one seeded history of up to 15 endorse runs over a pool of 2-4 images x 2-4 candidate names (incl. the default and one with a directory separator) x overwrite on/off x snapshot directory none/set, through SimVCS (library and cobra command) and through localnonvcs on a scratch directory, where a run may also lose its k-th file write (the files before it are written: the back end is not atomic); the manifest predicates are evaluated after EVERY run on the files visible through the back end; " +
 			"non-trivial = at least 2 runs changed the repository; distinct by the sequence of abstract manifest states (set of (digest#, path))",
 		Assumptions: []string{
-			"fault-free (faults are C14's subject); runs may fail legitimately (existing file without --overwrite)",
+			"SimVCS runs are fault-free (commit faults are C14's subject); runs may fail legitimately (existing file without --overwrite); on localnonvcs a run without --overwrite that loses a write must leave the manifest faithful, a run WITH --overwrite that loses a write ends the history unjudged (replace-then-fail cannot be consistent without atomic commits)",
 			"'latest successful run is indexed' is evaluated right after manifest-mode runs only (snapshot mode bypasses the manifest by design)",
 			"'existing endorsement file' = the manifest-indexed <out_dir>/<candidate>.binarypb files; snapshot-mode *.signed copies are rewritten unconditionally by design",
 		},
@@ -65,8 +66,50 @@ func (s simView) vcs() endorse.VersionControl { return s.v }
 func (s simView) root() string                { return s.v.Root }
 
 type dirView struct {
-	t   *localnonvcs.T
+	t   endorse.VersionControl
 	dir string
+}
+
+// partialVCS makes the non-atomic back end fail in the middle of a run: the failAt-th file the
+// run writes (counted over all its WriteOrCreateFiles calls) is not written, the files before it
+// are (disk full, permission lost: localnonvcs applies files one after another).
+type partialVCS struct {
+	endorse.VersionControl
+	r       *core.Run
+	failAt  int
+	written int
+	fired   bool
+}
+
+type partialOps struct {
+	endorse.ChangeOps
+	p *partialVCS
+}
+
+func (p *partialVCS) GetChangeOps(ctx context.Context) (endorse.ChangeOps, error) {
+	ops, err := p.VersionControl.GetChangeOps(ctx)
+	if err != nil {
+		return nil, err
+	}
+	return &partialOps{ops, p}, nil
+}
+
+func (o *partialOps) WriteOrCreateFiles(ctx context.Context, files ...*endorse.File) error {
+	p := o.p
+	if p.failAt >= 0 && !p.fired && p.written+len(files) > p.failAt {
+		k := p.failAt - p.written
+		p.fired = true
+		p.r.Fault("partial-write", "file %d of the run (%d of %d in this call)", p.failAt, k, len(files))
+		if k > 0 {
+			if err := o.ChangeOps.WriteOrCreateFiles(ctx, files[:k]...); err != nil {
+				return err
+			}
+		}
+		p.written += k
+		return fmt.Errorf("simulated storage failure writing %s", files[k].Path)
+	}
+	p.written += len(files)
+	return o.ChangeOps.WriteOrCreateFiles(ctx, files...)
 }
 
 func (d dirView) files() map[string][]byte {
@@ -154,6 +197,7 @@ func runC13(r *core.Run) {
 		return
 	}
 	var view repoView
+	var partial *partialVCS
 	scratch := Scratch(r)
 	backend := r.Intn(3, "backend")
 	switch backend {
@@ -162,10 +206,13 @@ func runC13(r *core.Run) {
 	default:
 		d := filepath.Join(scratch, "repo")
 		os.MkdirAll(d, 0o755)
-		view = dirView{&localnonvcs.T{Root: d}, d}
+		partial = &partialVCS{VersionControl: &localnonvcs.T{Root: d}, r: r, failAt: -1}
+		view = dirView{partial, d}
 	}
 	pool := images.Small()[:2+r.Intn(3, "pool-size")]
-	cands := []string{"", "rc1", "rc2"}[:2+r.Intn(2, "candidates")]
+	// candidate names: the default, plain ones, and one with a directory separator (legal: the flag
+	// is not validated and both back ends create parent directories)
+	cands := []string{"", "rc1", "rel-7/RC00", "rc2"}[:2+r.Intn(3, "candidates")]
 	n := 2 + r.Intn(14, "runs")
 	if r.Tier != "thorough" && n > 10 {
 		n = 10
@@ -192,8 +239,25 @@ func runC13(r *core.Run) {
 			q.SnapshotDir = "snap"
 		}
 		before := view.files()
+		if partial != nil {
+			partial.failAt, partial.written, partial.fired = -1, 0, false
+			if r.Chance(20, "partial-write?") {
+				partial.failAt = r.Intn(4, "fail-at-file")
+			}
+		}
 		_, err := Endorse(r, a, view.vcs(), q, scratch)
 		after := view.files()
+		faulted := partial != nil && partial.fired
+		if faulted && err == nil {
+			r.Probe("run-succeeded-despite-failed-write")
+		}
+		if faulted && q.Overwrite {
+			// Replacing a listed file and then failing before the manifest is rewritten cannot be
+			// made consistent on a back end without atomic commits: nothing is claimed about it,
+			// and the history ends here.
+			r.Probe("partial-overwrite-run-ends-history")
+			break
+		}
 		where := fmt.Sprintf("backend %d after run %d %s -> %v", backend, i, q, err)
 		hist = append(hist, fmt.Sprintf("%s/%q/ow=%v/snap=%v->%s", q.Image.Name, q.Candidate, q.Overwrite, q.SnapshotDir != "", map[bool]string{true: "ok", false: "err"}[err == nil]))
 		entries, has := checkManifest(r, after, outPath, where)
